@@ -185,6 +185,10 @@ def run_fragment(body: Sequence[ast.stmt], names: Dict[str, Any], attrs: Optiona
             if not (isinstance(j_, int) and not isinstance(j_, bool) and bs_ and -bs_[-1] <= j_ < bs_[-1]):
                 raise Unfoldable("store index")
             vs_ = _shape(v) if isinstance(v, list) else None
+            while vs_ and len(vs_) > len(bs_) - 1 and vs_[0] == 1:
+                v, vs_ = v[0], vs_[1:]  # leading axes of length 1 are dropped, as torch's setitem does
+            if not isinstance(v, list):
+                vs_ = None
             if vs_ is not None and vs_ != bs_[:-1]:
                 if len(vs_) <= len(bs_) - 1 and vs_ == bs_[len(bs_) - 1 - len(vs_): -1]:
                     pass  # broadcast over leading axes
@@ -663,6 +667,12 @@ def run_fragment(body: Sequence[ast.stmt], names: Dict[str, Any], attrs: Optiona
                                 why[x.id] = note_
                         base_ = t
                         while isinstance(base_, (ast.Subscript, ast.Attribute)):
+                            if isinstance(base_, ast.Attribute):
+                                from .astutil import attr_chain as _ac2
+
+                                ch2_ = _ac2(base_)
+                                if ch2_ is not None and ch2_ in attrs:
+                                    attrs.pop(ch2_, None)  # an attribute assigned (or updated) with an unknown value is unknown, not stale
                             base_ = base_.value
                         if isinstance(base_, ast.Name) and base_ is not t:
                             env.pop(base_.id, None)  # a container updated with an unknown value is unknown
